@@ -524,28 +524,60 @@ def _root_name(node):
     return node.id if isinstance(node, ast.Name) else None
 
 
+FRESH_CALLS = {'set', 'list', 'dict', 'tuple', 'sorted', 'frozenset', 'deepcopy', 'copy', 'str', 'int', 'len', 'range', 'enumerate', 'zip', 'reversed',
+               'deque', 'defaultdict', 'Queue', 'sum', 'min', 'max', 'bool', 'float', 'repr', 'type', 'iter'}
+
+
+def _is_fresh_expr(e):
+    """does evaluating e certainly create a new object (never an alias of something the caller can see)?"""
+    if isinstance(e, (ast.Constant, ast.List, ast.Set, ast.Dict, ast.Tuple, ast.ListComp, ast.SetComp, ast.DictComp, ast.GeneratorExp, ast.JoinedStr,
+                      ast.BinOp, ast.UnaryOp, ast.Compare, ast.BoolOp if False else ast.Compare, ast.Lambda)):
+        return True
+    if isinstance(e, ast.Call):
+        f = e.func
+        name = f.id if isinstance(f, ast.Name) else (f.attr if isinstance(f, ast.Attribute) else None)
+        if name in FRESH_CALLS:
+            return True
+        if isinstance(f, ast.Name) and name and name[:1].isupper():      # a class constructor
+            return True
+        if isinstance(f, ast.Attribute) and name in ('join', 'split', 'replace', 'strip', 'format', 'lower', 'upper', 'keys', 'values', 'items', 'get_all_tokens',
+                                                      'export', 'tokenize', 'export_string', 'export_token', 'default', 'create', 'new', 'union', 'intersection',
+                                                      'difference', 'startswith', 'endswith', 'count', 'index', 'getText', 'import_pitch', 'export_pitch', 'nodes',
+                                                      'to_transposed', 'accidentals', 'prefix', 'clone'):
+            return True
+        return False
+    if isinstance(e, ast.IfExp):
+        return _is_fresh_expr(e.body) and _is_fresh_expr(e.orelse)
+    return False
+
+
 def write_sites_of(fn, qual):
-    """writes whose receiver is not a local variable created inside the function (parameters, self, globals)"""
+    """writes whose receiver may be visible outside the call: parameters, self, globals, and locals that may alias them
+    (a local counts as private only when every value assigned to it is certainly a new object)"""
     params = {a.arg for a in fn.args.args + fn.args.kwonlyargs} | ({fn.args.vararg.arg} if fn.args.vararg else set()) | ({fn.args.kwarg.arg} if fn.args.kwarg else set())
-    local = set()
+    assigned = {}
     for n in ast.walk(fn):
-        if isinstance(n, (ast.Assign, ast.AnnAssign, ast.AugAssign)):
-            tgts = n.targets if isinstance(n, ast.Assign) else [n.target]
-            for t in tgts:
-                for sub in ast.walk(t):
-                    if isinstance(sub, ast.Name) and isinstance(sub.ctx, ast.Store):
-                        local.add(sub.id)
+        if isinstance(n, ast.Assign):
+            for t in n.targets:
+                if isinstance(t, ast.Name):
+                    assigned.setdefault(t.id, []).append(n.value)
+                else:
+                    for sub in ast.walk(t):
+                        if isinstance(sub, ast.Name) and isinstance(sub.ctx, ast.Store):
+                            assigned.setdefault(sub.id, []).append(None)       # tuple unpacking: unknown
+        elif isinstance(n, ast.AnnAssign) and isinstance(n.target, ast.Name):
+            assigned.setdefault(n.target.id, []).append(n.value)
         elif isinstance(n, (ast.For, ast.comprehension)):
             for sub in ast.walk(n.target):
                 if isinstance(sub, ast.Name):
-                    local.add(sub.id)
+                    assigned.setdefault(sub.id, []).append(None)               # loop variables alias the elements iterated
         elif isinstance(n, ast.With):
             for it in n.items:
                 if it.optional_vars is not None:
                     for sub in ast.walk(it.optional_vars):
                         if isinstance(sub, ast.Name):
-                            local.add(sub.id)
-    local -= params
+                            assigned.setdefault(sub.id, []).append(it.context_expr)
+    private = {k for k, vs in assigned.items() if k not in params and all(v is not None and _is_fresh_expr(v) for v in vs)}
     out = []
     for n in ast.walk(fn):
         tgts = []
@@ -559,16 +591,19 @@ def write_sites_of(fn, qual):
             for sub in ([t] if not isinstance(t, (ast.Tuple, ast.List)) else t.elts):
                 if isinstance(sub, (ast.Attribute, ast.Subscript)):
                     r = _root_name(sub)
-                    if r not in local:
+                    if r not in private:
                         out.append(f'{qual}: {ast.unparse(sub)} =')
+        if isinstance(n, ast.AugAssign) and isinstance(n.target, ast.Name) and n.target.id not in private:
+            # `x |= y`, `x += y` mutate x in place when x is a set / list / dict that may be shared
+            out.append(f'{qual}: {n.target.id} {type(n.op).__name__}=')
         if isinstance(n, ast.Call):
             if isinstance(n.func, ast.Attribute) and n.func.attr in MUTATORS:
                 r = _root_name(n.func.value)
-                if r not in local:
+                if r not in private:
                     out.append(f'{qual}: {ast.unparse(n.func)}()')
             if isinstance(n.func, ast.Name) and n.func.id in ('setattr', 'delattr'):
                 r = _root_name(n.args[0]) if n.args else None
-                if r not in local:
+                if r not in private:
                     out.append(f'{qual}: {n.func.id}({ast.unparse(n.args[0]) if n.args else ""}, ...)')
     return out
 
@@ -619,6 +654,56 @@ def gen_write_sites(ex: Extraction, kp):
 
 
 GENERATORS.append(gen_write_sites)
+
+
+def gen_kern_importer(ex: Extraction, kp):
+    """does KernSpineImporter.import_token start by forgetting the syntax errors of earlier tokens?  (C12)"""
+    t = parse('kernpy/core/kern_spine_importer.py')
+    fn = find_def(t, 'KernSpineImporter', 'import_token')
+    resets = False
+    reads_shared = False
+    if fn is None:
+        ex.problem('KernSpineImporter.import_token not found')
+    else:
+        # position of the first statement that uses the error listener for parsing, and of a reset before it
+        for i, st in enumerate(fn.body):
+            src_st = ast.unparse(st)
+            is_reset = False
+            if isinstance(st, ast.Assign):
+                tgt = ast.unparse(st.targets[0])
+                val = ast.unparse(st.value)
+                if tgt == 'self.error_listener.errors' and val in ('[]', 'list()'):
+                    is_reset = True
+                if tgt == 'self.error_listener' and val.startswith('ErrorListener('):
+                    is_reset = True
+            if isinstance(st, ast.Expr) and isinstance(st.value, ast.Call) and ast.unparse(st.value.func) == 'self.error_listener.errors.clear':
+                is_reset = True
+            if is_reset and not reads_shared:
+                resets = True
+            if 'addErrorListener(self.error_listener)' in src_st or 'getNumberErrorsFound' in src_st:
+                reads_shared = True
+        if not reads_shared:
+            # the shared listener is not used at all (e.g. a fresh one per call): history cannot leak through it
+            if 'self.error_listener' not in ast.unparse(fn):
+                resets = True
+    body = [f'def kernImporterResetsErrors : Bool := {lbool(resets)}']
+    # Importer.run: the except branch wraps the cell text and the row number into an ErrorToken and records it
+    it = parse('kernpy/core/importer.py')
+    run = find_def(it, 'Importer', 'run')
+    wraps = False
+    if run is not None:
+        for n in ast.walk(run):
+            if isinstance(n, ast.ExceptHandler):
+                txt = ast.unparse(n)
+                if 'ErrorToken(column, self._row_number' in txt and 'self.errors.append(token)' in txt:
+                    wraps = True
+    else:
+        ex.problem('Importer.run not found')
+    body.append(f'def importerWrapsRejectedCells : Bool := {lbool(wraps)}')
+    ex.files['KernImporter.lean'] = wrap(body)
+
+
+GENERATORS.append(gen_kern_importer)
 
 # ---- keep this block last
 if __name__ == '__main__':
